@@ -1016,13 +1016,15 @@ def run(ctx):
                 continue
             first_violation[key] = (i, step, sig, what)
     # report oracle hits (shrunk when new)
+    shrunk = 0
     for key, (i, step, sig, what) in sorted(first_violation.items()):
         res = results[i]
         ops = list(histories[i][1][:res['steps'][step]['src_end']])
         witness = {'history': [list(o) for o in ops], 'failing_step': step, 'observed': jsonable(res, step),
                    'expected': 'the property statement: ' + what + ' must not happen'}
         known = any(f.get('status') == 'known' and all(sig.get(k) == v for k, v in f['signature'].items()) for f in ctx.findings)
-        if not known:
+        if not known and shrunk < 5:        # shrinking is a few dozen engine runs per signature: the first five are enough
+            shrunk += 1
             small = shrink(ctx, ops, sig)
             r2 = run_histories(ctx, [small], procs=1)[0]
             witness = {'history': [list(o) for o in small], 'observed': jsonable(r2),
